@@ -82,10 +82,10 @@ func (m RangeMap) AuthenticatedNames() []string {
 type Encoding int
 
 const (
-	EncDER         Encoding = iota // definite, minimal (DER)
-	EncIndefOuter                  // indefinite length on ContentInfo, [0], SignedData, encapContentInfo and its [0] only (what streaming encoders emit)
-	EncIndefAll                    // indefinite length on every constructed value of the SignedData except inside embedded certificates
-	EncIndefDeep                   // indefinite length on every constructed value including inside the certificates
+	EncDER        Encoding = iota // definite, minimal (DER)
+	EncIndefOuter                 // indefinite length on ContentInfo, [0], SignedData, encapContentInfo and its [0] only (what streaming encoders emit)
+	EncIndefAll                   // indefinite length on every constructed value of the SignedData except inside embedded certificates
+	EncIndefDeep                  // indefinite length on every constructed value including inside the certificates
 )
 
 func (e Encoding) String() string {
@@ -95,12 +95,13 @@ func (e Encoding) String() string {
 // Node is one TLV under construction. All identifiers used here fit one octet.
 type Node struct {
 	Tag   byte
-	Prim  []byte  // content octets (primitive)
-	Kids  []*Node // children (constructed: Tag&0x20 != 0)
-	Label string  // if set: Label -> whole TLV, Label+".v" -> content octets
+	Prim  []byte           // content octets (primitive)
+	Kids  []*Node          // children (constructed: Tag&0x20 != 0)
+	Label string           // if set: Label -> whole TLV, Label+".v" -> content octets
 	Sub   map[string]Range // extra ranges relative to the START OF THE CONTENT octets (primitive nodes only)
-	outer bool    // member of the "outer" structure (EncIndefOuter)
-	cert  bool    // root of an embedded certificate (EncIndefAll stops here)
+	outer bool             // member of the "outer" structure (EncIndefOuter)
+	cert  bool             // root of an embedded certificate (EncIndefAll stops here)
+	def   bool             // always definite length (the EF.SOD application wrapper)
 }
 
 func (n *Node) cons() bool { return n.Tag&0x20 != 0 }
@@ -131,8 +132,8 @@ func OID(o asn1.ObjectIdentifier) *Node {
 	}
 	return Prim(0x06, b[2:]) // all OIDs here are < 128 octets
 }
-func Null() *Node             { return Prim(0x05, nil) }
-func Octets(b []byte) *Node   { return Prim(0x04, b) }
+func Null() *Node           { return Prim(0x05, nil) }
+func Octets(b []byte) *Node { return Prim(0x04, b) }
 func Bool(v bool) *Node {
 	if v {
 		return Prim(0x01, []byte{0xFF})
@@ -208,7 +209,7 @@ type encState struct {
 }
 
 func (st *encState) indef(n *Node, inCert bool) bool {
-	if !n.cons() {
+	if !n.cons() || n.def {
 		return false
 	}
 	switch st.enc {
